@@ -124,6 +124,9 @@ type dev struct {
 
 func (d *dev) Input(c *devsim.Conn, b []byte) {
 	d.Server.Input(c, b)
+	if d.h.s.HoldHelloTail > 0 && d.h.cur < 0 && len(d.Server.Msgs) <= 1 {
+		c.Hold(d.h.s.HoldHelloTail) // released by the next client write (Conn.Write resets the hold)
+	}
 	if d.h.cur >= 0 {
 		d.h.writesInCall++
 		if call := d.h.s.Calls[d.h.cur]; call.Plan == "now" && call.AfterWrites > 0 && d.h.writesInCall >= call.AfterWrites {
@@ -570,6 +573,15 @@ func RunSession(s Session) mon.Result {
 			want := norm(string(rc.payload))
 			if rc.payload == nil || got != want {
 				hist = append(hist, desc+" → WRONG RESULT")
+				if all := res.Result + string(res.RawResult); strings.Contains(all, "<hello") || strings.Contains(all, "<rpc ") {
+					what := "request"
+					if strings.Contains(all, "<hello") {
+						what = "client-hello"
+					}
+					return bad(fmt.Sprintf("c08/echo-returned-as-reply:%s:%s-echo", s.Version, what),
+						"call %d (id %d, plan %s) returned echoed client bytes as its reply\n got: %q\n raw: %q", k, rc.reqID, call.Plan,
+						clip(res.Result), clip(string(res.RawResult)))
+				}
 				for j, o := range s.Calls {
 					if j != k && strings.Contains(res.Result+string(res.RawResult), o.Nonce) {
 						if strings.Contains(res.Result, call.Nonce) && strings.Contains(res.Result, fmt.Sprintf(`message-id="%d"`, rc.reqID)) {
